@@ -19,7 +19,7 @@ def cells(tier):
     for size in [2, 3]:
         for cbn in ["slowccb", "slowecb", "plain"]:
             for fl in ([[FLUSH]], [[FLUSH], [FLUSH_RE]]):
-                if q and len(fl) == 2 and cbn == "plain":
+                if q and len(fl) == 2 and (cbn == "plain" or (size == 3 and cbn == "slowecb")):
                     continue
                 cb = dict(CBK[cbn])
                 if cbn == "slowecb":
